@@ -13,3 +13,12 @@ func VerifListStats[PK any, K comparable, V any](p *ECache[PK, K, V]) (nodes, de
 	nodes, deleted, refSum = iterable.VerifListStats(p.items)
 	return nodes, deleted, refSum, p.items.Len(), len(p.inflight)
 }
+
+// VerifStaleVals returns the number of nodes of the cache's underlying list that hold no live
+// entry but still reference a value (see iterable.VerifListStats2).
+func VerifStaleVals[PK any, K comparable, V any](p *ECache[PK, K, V]) int {
+	p.lock.Lock()
+	defer p.lock.Unlock()
+	_, _, _, stale := iterable.VerifListStats2(p.items)
+	return stale
+}
